@@ -270,6 +270,31 @@ def run(ctx):
             ctx.inst("C14.R6", "%s#ordered-container" % n_.replace(CORE, ""), False, "members pass through a key-ordered container: %s" % hits[:3], f6.loc())
     ctx.inst("C14.R6", "evaluator#ordered-containers", n6 == 0, "%d functions reachable from the evaluator scanned; functions using BTreeMap / BTreeSet / BinaryHeap: %d" % (len(reach6), n6), None)
 
+    # slice bounds are half-open: an index equal to the length is a valid bound (the empty slice at the end)
+    n_b = 0
+    mm_ = H.main_match(core.hir_fn(CORE + "functions::BuiltInFunction::call")["body"], "functions::BuiltInFunction")
+    for a_ in (mm_["arms"] if mm_ else []):
+        names_ = [H.last(v_) for v_ in H.pat_variants(a_["pat"])]
+        if not set(names_) & {"Slice", "Head", "Tail", "Chunk"}:
+            continue
+        for n_ in H.walk(a_["body"]):
+            if H.kind(n_) == "If" and any(H.kind(x) == "Ret" or (H.kind(x) == "Call" and H.last((H.strip(x["f"]).get("res") or {}).get("def") or "") == "Err") for x in H.walk(n_["then"])):
+                for c_ in H.walk(n_["cond"]):
+                    if H.kind(c_) == "Binary" and c_["op"] in ("Ge", "Le"):
+                        l_, r_ = H.strip(c_["l"]), H.strip(c_["r"])
+                        is_len = lambda z: H.kind(z) == "MethodCall" and z["name"] in ("len", "count")
+                        if (c_["op"] == "Ge" and is_len(r_) and not is_len(l_)) or (c_["op"] == "Le" and is_len(l_) and not is_len(r_)):
+                            n_b += 1
+                            ctx.inst("C14.R4", "%s#bound-equal-to-length-refused" % "|".join(names_), False, "an index equal to the length is refused (%s): slice(l, len(l), len(l)) is the empty list, and slice(l,0,k) ++ slice(l,k,n) == l needs it at k = n" % H.loc(c_), H.loc(n_))
+    ctx.inst("C14.R4", "bound-equal-to-length#none", n_b == 0, "hand-written bounds tests in slice / head / tail / chunk that refuse an index equal to the length: %d" % n_b, None)
+    # key functions: called with the element alone, and as themselves
+    ctx.rule("C14.R7", "sort_by, group_by and count_by call their key function with the element alone (no index), and hand the function value itself as its self reference at every call (both key evaluations of a sort_by comparison): the key of x is f(x), whatever f's arity and whether or not f is recursive", floor=4)
+    from rules import c13 as c13_
+    from rules.c04 import _Only
+    keyfn = lambda k_: any(("[%s]" % v_) in k_ for v_ in ("SortBy", "GroupBy", "CountBy"))
+    c13_.call_protocol(_Only(ctx, keyfn), "C14.R7", core)
+    c13_.this_pairing(_Only(ctx, keyfn), "C14.R7", core)
+
     # hand-written replacements of a primitive: two look-alike loops that are wrong on edge cases
     hbc = core.hir_fn(CORE + "functions::BuiltInFunction::call")
     mm_ = H.main_match(hbc["body"], "functions::BuiltInFunction")
